@@ -366,6 +366,8 @@ def expand_block(blk, gen, unit_id):
         base = first_line
         body = apply_steps(blk, body, base, logger)
         start_gen = len(gen.lines)
+        for a_ in blk.attrs:
+            gen.add(a_, lambda k: ('gen',))
         gen.add(body, lambda k: ('repo', blk.file, base + k))
         gen.functions.append(dict(name=blk.label, label=blk.label, kind='raw-item', repo_file=blk.file,
                                   repo_lines=[first_line, line_of(rf.text, it['end'] - 1)], sha256=sha,
